@@ -9,7 +9,7 @@ C07 = every completed step is enabled in the model (nothing invented, duplicated
 dropped, reordered; capacity; sync hand-off; close semantics).
 C08 = terminal report exact, no hang, no host panic.
 """
-import time
+import time, itertools, hashlib
 from vlib.engine import Check, Verdict, explore
 from vlib import report, netmodel as N, runner as R
 
@@ -41,6 +41,18 @@ def structured(tier):
                     out.append(((k0,), (tuple([(R, 0)] * take),) + tuple(tuple([(S, 0)] * per) for _ in range(m)), None))
                     out.append(((k0,), (tuple([(S, 0)] * take),) + tuple(tuple([(R, 0)] * per) for _ in range(m)), None))
                     out.append(((k0, "buf3"), (tuple([(S, 0)] * take + [(R, 1)] * m),) + tuple(tuple([(R, 0)] * per + [(S, 1)]) for _ in range(m)), None))
+    # F5 several producers and several consumers on one data channel, every fiber reports to main through the done channel
+    for k0 in ("sync", "buf1", "buf2", "buf3"):
+        for k1 in ("sync", "buf2"):
+            for np_, nc in ((1, 2), (1, 3), (2, 1), (2, 2)):
+                for n in (1, 2, 3):
+                    for k in (1, 2):
+                        prods = [tuple([(S, 0)] * n + [(S, 1)])] * np_
+                        conss = [tuple([(R, 0)] * k + [(S, 1)])] * nc
+                        for joins in (np_ + nc, np_ + nc - 1):
+                            main = tuple([(R, 1)] * joins)
+                            out.append(((k0, k1), (main,) + tuple(conss) + tuple(prods), None))
+                            out.append(((k0, k1), (main,) + tuple(prods) + tuple(conss), None))
     # F4 ping-pong over two channels
     for k0 in ("sync", "buf1"):
         for k1 in ("sync", "buf1"):
@@ -51,17 +63,81 @@ def structured(tier):
     return out
 
 
+def launch_trees(tier):
+    """fibers launched by fibers: every network of the small bound with every placement of the launch of each non-main fiber
+    (by main before its first operation, or at any position of any other fiber's script, acyclic)"""
+    plan = [(1, 1, 4), (1, 2, 4), (1, 3, 3), (2, 2, 3)] if tier == "thorough" else [(1, 1, 3), (1, 2, 3), (1, 3, 3), (2, 2, 2)]
+    for nch, nf, t in plan:
+        for kinds, fibers in N.networks(nch, nf, t):
+            n = len(fibers)
+            # placement per fiber f>=1: None (main, up front) or (parent, position)
+            options = []
+            for f in range(1, n):
+                opts = [None]
+                for p in range(n):
+                    if p != f:
+                        opts += [(p, i) for i in range(len(fibers[p]) + 1)]
+                options.append(opts)
+            for choice in itertools.product(*options):
+                if all(c is None for c in choice):
+                    continue  # the plain network is in the main enumeration
+                parent = {f + 1: c[0] for f, c in enumerate(choice) if c is not None}
+                # acyclic: following parents must reach a fiber launched up front
+                ok = True
+                for f in parent:
+                    seen, x = set(), f
+                    while x in parent:
+                        if x in seen:
+                            ok = False
+                            break
+                        seen.add(x)
+                        x = parent[x]
+                    if not ok:
+                        break
+                if not ok:
+                    continue
+                scripts = [list(s) for s in fibers]
+                # insert launches from the highest position down so that positions stay valid
+                ins = sorted(((c[0], c[1], f + 1) for f, c in enumerate(choice) if c is not None), key=lambda x: (x[0], -x[1], -x[2]))
+                for p, i, f in ins:
+                    scripts[p].insert(i, ("l", f))
+                yield (kinds, tuple(tuple(s) for s in scripts), None)
+
+
+def nested_workers():
+    """workers that launch a helper of their own and share a data channel, joined by main through go/done channels
+    (channel 0 = data, 1 = go, 2 = done): a fiber parked on a channel can be resumed because its child finished"""
+    S, R, C, L = "s", "r", "c", "l"
+    out = []
+    mains = [()]
+    for n in (1, 2, 3):
+        mains += list(itertools.product([(R, 1), (S, 0), (R, 2), (R, 0)], repeat=n))
+    for k0 in ("sync", "buf1", "buf2"):
+        for k1, k2 in (("buf1", "sync"), ("sync", "buf1")):
+            for kid in (((S, 0),), ((R, 0),), ()):
+                for w1kid in (None, 0, 1):
+                    for w2 in (((R, 0), (S, 2)), ((S, 0), (S, 2)), ((R, 0),)):
+                        w1 = [(R, 0), (S, 1)]
+                        fibers_tail = [tuple(w2)]
+                        if w1kid is not None:
+                            w1.insert(w1kid, (L, 3))
+                            fibers_tail.append(tuple(kid))
+                        for main in mains:
+                            out.append(((k0, k1, k2), (tuple(main), tuple(w1)) + tuple(fibers_tail), None))
+    return out
+
+
 class Net(Check):
     level = "model_checking"
     assumptions = ["fibers switch only inside channel operations, so a line printed right after an operation is atomic with its completion and stdout is the VM's linearisation",
                    "close while a synchronous sender is parked with an untaken value is unspecified by the property; states reachable from it are compared for crash-freedom only",
-                   "size bound: <= 2 channels of kinds {sync, buffered 1, buffered 2}, main + <= 3 launched fibers, straight-line scripts"]
+                   "size bound: <= 2 channels (3 in the nested-workers family) of kinds {sync, buffered 1, buffered 2, buffered 3}, main + <= 4 launched fibers, straight-line scripts"]
 
     def __init__(self, pid):
         self.id = pid
         self.rule = ("all networks (channels, launched fibers, total operations): quick (1,1-4,<=5) (2,1-3,<=4); thorough (1,1-3,<=7) (1,4,<=5) (2,1,<=6) (2,2,<=5) (2,3,<=4) ("
-                     "symmetric fibers merged); structured families beyond that bound (producer/consumer pipelines with 0-4 sends / 0-4 receives joined through a done channel over capacities 0-3, fan-in, fan-out, ping-pong; up to 12 operations); plus the nested family (one operation inside a native iterator callback) "
-                     "for T<=3; per network: model explored over all schedules, VM trace replayed against it. non-trivial = network whose "
+                     "symmetric fibers merged); structured families beyond that bound (producer/consumer pipelines with 0-4 sends / 0-4 receives joined through a done channel over capacities 0-3, fan-in, fan-out, ping-pong, 1-2 producers x 1-3 consumers all joined by main; up to 14 operations); plus the nested family (one operation inside a native iterator callback) "
+                     "for T<=3; plus fibers launched by fibers: every placement of every launch for (1,1-3,<=3) (2,2,<=2) (thorough <=4/3) and the nested-workers family (workers that launch a helper and share a data channel, joined through go/done channels, 3 channels, 3-4 fibers, up to 9 operations); per network: model explored over all schedules, VM trace replayed against it. non-trivial = network whose "
                      "model has >= 2 fibers interacting on a channel (some receive or blocked send)")
 
     def gen(self, tier):
@@ -74,6 +150,11 @@ class Net(Check):
                 yield (kinds, fibers, None)
         # structured families beyond the operation bound: producer/consumer pipelines joined through a `done` channel, fan-in, fan-out, ping-pong
         for spec in structured(tier):
+            yield spec
+        # fibers launched by fibers (the launch is an operation of the parent's script)
+        for spec in launch_trees(tier):
+            yield spec
+        for spec in nested_workers():
             yield spec
         # an operation executed inside a callback run by a native (nested interpreter loop shares the scheduler)
         for nch, nf in ((1, 1), (1, 2), (2, 1)):
@@ -88,7 +169,7 @@ class Net(Check):
 
     def build(self, spec):
         kinds, fibers, wrap = spec
-        OP = {"s": 0, "r": 1, "c": 2}
+        OP = {"s": 0, "r": 1, "c": 2, "l": 3}
         case = {"cmd": "net", "kinds": [{"sync": 0, "buf1": 1, "buf2": 2, "buf3": 3}[k] for k in kinds],
                 "fibers": [[[OP[o], c] for o, c in s] for s in fibers], "wrap": list(wrap) if wrap else None, "step_limit": 300000}
         return [case], None
@@ -105,7 +186,7 @@ class Net(Check):
             nm = {"states": ns, "transitions": nt, "deadlocks": dl, "verdict": "crash", "detail": "%s %s" % (cls, r.get("signal") or "")}
         extra = {"states": nm["states"], "transitions": nm["transitions"], "traces": 1, "model_deadlock_states": nm["deadlocks"]}
         # every K-th network is re-checked with the Python reference model (cross-check of the Rust port)
-        if hash((kinds, fibers)) % 97 == 0 and cls in ("ok", "deadlock", "runtime_error"):
+        if int(hashlib.sha1(repr((kinds, fibers)).encode()).hexdigest()[:8], 16) % 97 == 0 and cls in ("ok", "deadlock", "runtime_error"):
             ns, nt, unspec, dl = N.explore(kinds, fibers)
             lines = [l for l in r.get("out", "").split("\n") if l]
             pv, pd = N.check_trace(kinds, fibers, cls, lines)
@@ -129,6 +210,8 @@ class Net(Check):
                 v.finding = "KF-C08-close-no-wake"
             elif detail in ("bufrecv", "bufsend"):
                 v.finding = "KF-C08-buffered-no-wake"
+            elif detail in ("syncrecv", "mixed"):
+                v.finding = "KF-C08-parked-not-resumed"
         if verdict == "crash" and wrap is not None and cls == "panic" and "Internal Error" in (r.get("panic") or ""):
             v.finding = "KF-C08-nested-block"
         return v
